@@ -1,7 +1,8 @@
 (* C11 — A workflow that loads is structurally executable; a broken one is rejected.
    Model of (i) validate_object_schema (flowir.py) as a generic schema interpreter [check] over
    Python-like values, the schema VALUE being regenerated from the running code into
-   Valid/Generated.v on every run, and (ii) the accept/reject verdict of loading a workflow with
+   Valid/Generated.v on every run, (ii) FlowIR.convert_component_types (the coercion of option values that precedes
+   the schema check: [convert], [expected_types]) and (iii) the accept/reject verdict of loading a workflow with
    validation enabled (FlowIRConcrete construction, FlowIRExperimentConfiguration._initialize,
    FlowIRConcrete.validate / FlowIR.validate_component / validate_references) over a small
    structured workflow.  Total computable definitions only. *)
@@ -365,6 +366,197 @@ Definition dict_rules (s : schema) : option (list rule) :=
 Fixpoint path_label (lbl : string) (p : list pk) : string :=
   match p with [] => lbl | k :: p' => path_label (key_label lbl k) p' end.
 
+(* ------------------------------------------------------------------ FlowIR.convert_component_types *)
+(* the converters named in the [expected_types] table of convert_component_types *)
+Inductive conv :=
+  | CStr        (* str *)
+  | CInt        (* int *)
+  | CFloat      (* float *)
+  | CBool       (* the local to_bool: str_to_bool for a string, bool(value) otherwise *)
+  | CStrBool    (* str_to_bool *)
+  | COptInt     (* the local optional_int *)
+  | CMemory     (* FlowIR.memory_to_bytes *)
+  | CQos        (* FlowIR.str_to_kubernetes_qos *)
+  | CDictT.     (* dict: "we do not care about the value" *)
+
+Inductive ctree := CLeaf (c : conv) | CNode (ch : list (string * ctree)).
+
+Fixpoint assoc_ct (k : string) (ch : list (string * ctree)) : option ctree :=
+  match ch with
+  | [] => None
+  | (k', t) :: r => if String.eqb k k' then Some t else assoc_ct k r
+  end.
+
+(* `key in expected_type`: the table has str keys only *)
+Definition child (ch : list (string * ctree)) (k : pk) : option ctree :=
+  match k with KS s => assoc_ct s ch | KI _ => None end.
+
+(* {'true': True, 'false': False, 'yes': True, 'no': False}[s.lower()] *)
+Definition str_to_bool (s : string) : option bool :=
+  let l := lower s in
+  if String.eqb l "true" || String.eqb l "yes" then Some true
+  else if String.eqb l "false" || String.eqb l "no" then Some false
+  else None.
+
+(* float(s) succeeds: modelled for the plain spellings sign? digits, sign? digits '.' digits?, sign? '.' digits
+   (no exponent, inf/nan, blanks, underscores: domain restriction) *)
+Definition py_float (s : string) : bool :=
+  let body := match s with
+              | String c r => if Ascii.eqb c "-" || Ascii.eqb c "+" then r else s
+              | EmptyString => s
+              end in
+  match split_on "." body with
+  | [a] => negb (String.eqb a "") && all_chars is_digit a
+  | [a; b] => all_chars is_digit a && all_chars is_digit b && negb (String.eqb a "" && String.eqb b "")
+  | _ => false
+  end.
+
+(* int(value) for str/int/bool *)
+Definition py_int_of (v : pv) : option Z :=
+  match v with
+  | VStr s => py_int s
+  | VInt z => Some z
+  | VBool b => Some (if b then 1 else 0)%Z
+  | _ => None
+  end.
+
+(* FlowIR.memory_to_bytes on a string: int(value), else int(value[:-2]) scaled by the Mi/Gi suffix *)
+Definition memory_bytes (s : string) : option Z :=
+  match py_int s with
+  | Some z => Some z
+  | None =>
+      let n := String.length s in
+      match py_int (take (n - 2) s) with
+      | None => None
+      | Some z => let suf := drop (n - 2) s in
+                  if String.eqb suf "Mi" then Some (z * 1048576)%Z
+                  else if String.eqb suf "Gi" then Some (z * 1073741824)%Z
+                  else None
+      end
+  end.
+
+(* expected_type(value) for a value that is a str, an int or a bool; None = the call raises *)
+Definition conv_scalar (c : conv) (v : pv) : option pv :=
+  match c with
+  | CStr => match v with
+            | VStr _ => Some v
+            | VInt z => Some (VStr (zdec z))
+            | VBool b => Some (VStr (if b then "True" else "False"))
+            | _ => None
+            end
+  | CInt | COptInt => option_map VInt (py_int_of v)
+  | CFloat => match v with
+              | VStr s => if py_float s then Some (VFlt s) else None
+              | VInt z => Some (VFlt (zdec z ++ ".0"))
+              | VBool b => Some (VFlt (if b then "1.0" else "0.0"))
+              | _ => None
+              end
+  | CBool => match v with
+             | VStr s => option_map VBool (str_to_bool s)
+             | VInt z => Some (VBool (negb (Z.eqb z 0)))
+             | VBool _ => Some v
+             | _ => None
+             end
+  | CStrBool => match v with
+                | VStr s => option_map VBool (str_to_bool s)
+                | VBool _ => Some v
+                | _ => None               (* an int has no .lower() *)
+                end
+  | CMemory => match v with
+               | VStr s => option_map VInt (memory_bytes s)
+               | VInt _ => Some v
+               | VBool b => Some (VInt (if b then 1 else 0))
+               | _ => None
+               end
+  | CQos => match v with
+            | VStr s => if V.Ref.Model.in_strs (lower s) qos_names then Some (VStr (lower s)) else None
+            | _ => None                  (* an int has no .lower() *)
+            end
+  | CDictT => match v with
+              | VStr s => if String.eqb s "" then Some (VDict []) else None     (* dict('') == {} *)
+              | _ => None
+              end
+  end.
+
+Section OMap.
+  Context {A B : Type}.
+  Variable f : A -> option B.
+  Fixpoint omap (l : list A) : option (list B) :=
+    match l with
+    | [] => Some []
+    | x :: r => match f x, omap r with
+                | Some y, Some r' => Some (y :: r')
+                | _, _ => None
+                end
+    end.
+End OMap.
+
+(* the inner convert(value, expected_type, label) of convert_component_types; [t] = None: the key is not in the
+   table (the value is left alone); result None: at least one conversion raised (every failure ends in
+   FlowIRFailedComponentConvertType, the component is then invalid).  Only str/int/bool values are converted:
+   a float, None or a list is left for the schema; a dictionary is entered when the table has a dictionary there,
+   left alone when the table says `dict` and makes `key in expected_type` raise when the table has a callable *)
+Fixpoint convert (t : option ctree) (v : pv) {struct v} : option pv :=
+  match t with
+  | None => Some v
+  | Some (CLeaf c) =>
+      match v with
+      | VStr _ | VInt _ | VBool _ => conv_scalar c v
+      | VDict m => match c, m with
+                   | CDictT, _ => Some v
+                   | _, [] => Some v
+                   | _, _ => None
+                   end
+      | _ => Some v
+      end
+  | Some (CNode ch) =>
+      match v with
+      | VStr _ | VInt _ | VBool _ => None          (* a dictionary is not callable *)
+      | VDict m => option_map VDict
+                     (omap (fun kv => option_map (pair (fst kv)) (convert (child ch (fst kv)) (snd kv))) m)
+      | _ => Some v
+      end
+  end.
+
+(* the [expected_types] table of convert_component_types (compared with the table extracted from the source of the
+   running code on every run: Generated.expected_types_code, GenProofs.expected_types_current) *)
+Definition expected_types : ctree :=
+  CNode [
+    ("command", CNode [("arguments", CLeaf CStr); ("environment", CLeaf CStr); ("executable", CLeaf CStr);
+                       ("resolvePath", CLeaf CStrBool); ("interpreter", CLeaf CStr); ("expandArguments", CLeaf CStr)]);
+    ("workflowAttributes", CNode [
+       ("restartHookFile", CLeaf CStr); ("replicate", CLeaf CInt); ("aggregate", CLeaf CBool);
+       ("isMigratable", CLeaf CBool); ("isMigrated", CLeaf CBool); ("repeatInterval", CLeaf CInt);
+       ("repeatRetries", CLeaf CInt); ("isRepeat", CLeaf CBool); ("maxRestarts", CLeaf COptInt);
+       ("memoization", CNode [("disable", CNode [("strong", CLeaf CBool); ("fuzzy", CLeaf CBool)])]);
+       ("optimizer", CNode [("disable", CLeaf CBool); ("exploitChance", CLeaf CFloat); ("exploitTarget", CLeaf CFloat);
+                            ("exploitTargetLow", CLeaf CFloat); ("exploitTargetHigh", CLeaf CFloat)])]);
+    ("resourceRequest", CNode [("numberProcesses", CLeaf CInt); ("numberThreads", CLeaf CInt);
+                               ("ranksPerNode", CLeaf CInt); ("threadsPerCore", CLeaf CInt);
+                               ("memory", CLeaf CMemory); ("gpus", CLeaf CInt)]);
+    ("resourceManager", CNode [
+       ("config", CNode [("backend", CLeaf CStr); ("walltime", CLeaf CFloat)]);
+       ("lsf", CNode [("queue", CLeaf CStr); ("reservation", CLeaf CStr); ("resourceString", CLeaf CStr);
+                      ("statusRequestInterval", CLeaf CFloat); ("dockerImage", CLeaf CStr);
+                      ("dockerProfileApp", CLeaf CStr); ("dockerOptions", CLeaf CStr)]);
+       ("kubernetes", CNode [("qos", CLeaf CQos); ("image", CLeaf CStr); ("image-pull-secret", CLeaf CStr);
+                             ("namespace", CLeaf CStr); ("api-key-var", CLeaf CStr); ("host", CLeaf CStr);
+                             ("cpuUnitsPerCore", CLeaf CFloat); ("gracePeriod", CLeaf CInt); ("podSpec", CLeaf CDictT)]);
+       ("docker", CNode [("image", CLeaf CStr)])])].
+
+(* the entry of the table that governs the value at a path of dictionary keys (None: left alone) *)
+Fixpoint tree_at (p : list pk) (t : option ctree) : option ctree :=
+  match p with
+  | [] => t
+  | k :: p' => match t with
+               | Some (CNode ch) => tree_at p' (child ch k)
+               | _ => None
+               end
+  end.
+
+(* what a value placed at path p of a component becomes (None: the conversion raises) *)
+Definition conv_at (p : list pk) (x : pv) : option pv := convert (tree_at p (Some expected_types)) x.
+
 (* ------------------------------------------------------------------ graphs: a verified topological-order check *)
 Section Graph.
   Variable K : Type.
@@ -484,8 +676,27 @@ Definition gvars_acyclic (w : wf) : bool := acyclic_b String.eqb (gvar_graph w).
 Section Accept.
   Variable cs : schema.      (* the regenerated type_flowir_component('full') *)
 
+  (* the errors that matter for a component document: the conversion of convert_component_types raises
+     (FlowIRFailedComponentConvertType), or the CONVERTED document has a key-unknown / value-invalid error *)
+  Definition doc_hard_errs (d : pv) : list err :=
+    match convert (Some expected_types) d with
+    | None => [EValueInvalid "<convert_component_types>"]
+    | Some d' => hard_errs cs d' ""
+    end.
+
   Definition schema_ok (c : comp) : bool :=
-    match hard_errs cs (c_doc c) "" with [] => true | _ => false end.
+    match doc_hard_errs (c_doc c) with [] => true | _ => false end.
+
+  (* a value x placed at path p of a component is rejected: its conversion raises, or the schema at p reports a hard
+     error for what it was converted to *)
+  Definition wrong_rejected (p : list pk) (x : pv) : bool :=
+    match conv_at p x with
+    | None => true
+    | Some y => match sub_at p cs with
+                | Some s' => existsb is_hard (check s' y (path_label "" p))
+                | None => false
+                end
+    end.
 
   Definition accept (w : wf) : bool :=
     forallb schema_ok (w_comps w) && uniq cid_eqb (ids w) && refs_exist w &&
@@ -596,3 +807,45 @@ Definition check_load_case (cs : schema) (c : wf * bool * list nat) : bool :=
 (* (well-formed workflow, fault, the mutant is accepted by the real loader): the model's own [mutate] *)
 Definition check_mutant_case (cs : schema) (c : wf * fault * bool) : bool :=
   let '(w, m, acc) := c in Bool.eqb (accept cs (mutate m w)) acc.
+
+(* ---- convert_component_types: (component document, what the real function turns it into; None = it raised
+   FlowIRFailedComponentConvertType).  Floats are compared by type only (their repr is not modelled) *)
+Fixpoint erase_flt (v : pv) : pv :=
+  match v with
+  | VFlt _ => VFlt ""
+  | VList l => VList (map erase_flt l)
+  | VDict m => VDict (map (fun kv => (fst kv, erase_flt (snd kv))) m)
+  | _ => v
+  end.
+
+Fixpoint pv_eqb (a b : pv) {struct a} : bool :=
+  match a, b with
+  | VNone, VNone => true
+  | VBool x, VBool y => Bool.eqb x y
+  | VInt x, VInt y => Z.eqb x y
+  | VFlt x, VFlt y => String.eqb x y
+  | VStr x, VStr y => String.eqb x y
+  | VList l, VList l' =>
+      (fix go (l l' : list pv) : bool :=
+         match l, l' with
+         | [], [] => true
+         | x :: r, y :: r' => pv_eqb x y && go r r'
+         | _, _ => false
+         end) l l'
+  | VDict m, VDict m' =>
+      (fix go (m m' : list (pk * pv)) : bool :=
+         match m, m' with
+         | [], [] => true
+         | kx :: r, ky :: r' => pk_eqb (fst kx) (fst ky) && pv_eqb (snd kx) (snd ky) && go r r'
+         | _, _ => false
+         end) m m'
+  | _, _ => false
+  end.
+
+Definition check_convert_case (c : pv * option pv) : bool :=
+  let '(d, impl) := c in
+  match convert (Some expected_types) d, impl with
+  | None, None => true
+  | Some a, Some b => pv_eqb (erase_flt a) (erase_flt b)
+  | _, _ => false
+  end.
